@@ -1697,17 +1697,20 @@ fn main() {
          rest of the row filled with default blanks / coloured blanks / a run that reaches the margin); characters: full CP437 range incl. NUL, 0xFF, 0xDB, 0x1A and the eight control codes, \
          made encodable for the chosen control_char_handling by construction (Ignore: ESC BEL FF DEL CR LF replaced; FilterOut: all eight replaced; IcyTerm: all kept); colours: 16x16 DOS pairs, \
          xterm-256 entries and arbitrary RGB inserted into the palette; about 10% of the buffers have a large palette (250..=520 distinct colours inserted before the cells; their arbitrary colours are then the \
-         entries next to palette index 16, 256, 512 and the last one, as foreground and as background of blank runs); about 40% of the buffers are saved in a perturbed storage shape (icyv::shape: extra lines below, rows longer than \
+         entries next to palette index 16, 256, 512 and the last one, as foreground and as background of blank runs); about 20% have edited low palette slots (one, a few or most of the 16 entries hold another colour: \
+         arbitrary RGB, the colour of another DOS entry, an xterm colour; a cell colour D(i) means palette slot i and the expected picture is computed from the RGB values the slots hold); about 40% of the buffers are saved in a perturbed storage shape (icyv::shape: extra lines below, rows longer than \
          the width, layer larger than the buffer, terminal size larger/smaller than the buffer, unallocated trailing cells, combined) that leaves the picture inside the buffer rectangle unchanged; flags bold/blink/underline/crossed-out/italic/faint/double-underline/concealed gated by a per-buffer mask; cells made legal \
          for the ice mode by construction (Blink: background entries 8..15 folded to 0..7; Ice: no blink flag). Option vector = 8 booleans {compress,use_cursor_forward,use_repeat_sequences,\
          preserve_line_length,longer_terminal_output,use_extended_colors,save_sauce,lossles_output} x 3 screen preparations x 3 control-char modes x 3 ice modes = 6912 vectors; every shard of 6912 \
          consecutive cases walks through all of them in order (16 shards in the quick tier: each vector 16 times), each with its own generated buffer; modern_terminal_output=false, output_line_length=None. \
          Class tag = 2 hex digits of the booleans (bit0 compress, 1 cursor_forward, 2 repeat, 3 preserve_line_length, 4 longer_terminal, 5 extended_colors, 6 save_sauce, 7 lossles_output) followed by the \
-         digits prep(0 None,1 ClearScreen,2 Home) ctrl(0 Ignore,1 IcyTerm,2 FilterOut) ice(0 Unlimited,1 Blink,2 Ice), followed by /<storage shape> when the buffer was not saved as built. \
+         digits prep(0 None,1 ClearScreen,2 Home) ctrl(0 Ignore,1 IcyTerm,2 FilterOut) ice(0 Unlimited,1 Blink,2 Ice), . The class histogram has ONE dimension per case: bom_start_ok (picture starts with EF BB BF and loads correctly) / bom_steered_away, else shape/<storage shape>, else large_palette, else edited_palette_slots, else the option tag \
+         (so the tag counts only show the buffers without any of those; every option vector is generated 16 times per quick run by construction). \
          Non-trivial: >= 2 attribute changes between consecutive cells AND >= 1 compressible run (>= 5 equal cells in a row or >= 2 trailing black blanks) AND option vector != (SaveOptions::default(), Unlimited); \
          distinct by hash of the case. While a known finding with one of the ids listed under coverage.steering is open, the generator removes its trigger from the buffers \
          (bold on dark DOS foregrounds / concealed flag / trailing blinking blanks under compress / >=5 spaces on a 48;5;n background under compress+cursor_forward+extended_colors / \
-         a cursor-forward run ending at the right margin / the EF BB BF prefix); such cases carry a ~ after the class tag. Failure key = oracle clause | input features whose removal makes the reduced case pass | options that must differ from the all-off vector (greedy reduction to a fixpoint, fixed order).",
+         a cursor-forward run ending at the right margin); such cases carry a ~ after the class tag. For c04.utf8_bom_prefix only the exact class of the finding is steered away: file starts with the bytes EF BB BF (nothing written in front) \
+         AND the whole picture data is valid UTF-8, decided on the bytes the writer produces (class bom_steered_away); 1.2% of the buffers start with EF BB BF + a 7-bit rest, 4% with EF BB BF B0 + high-byte art (not valid UTF-8; class bom_start_ok). Failure key = oracle clause | input features whose removal makes the reduced case pass | options that must differ from the all-off vector (greedy reduction to a fixpoint, fixed order).",
     );
     eng.assume("what a cell shows is computed as Buffer::render_to_rgba does: palette RGB of the foreground (entry+8 when bold and entry<8) and of the background; NUL, space and 0xFF are one blank class; foreground of blanks is not compared");
     eng.assume("rows or cells missing from the loaded buffer count as blank on black, not blinking; rows below the saved rectangle must be blank on black");
